@@ -4,7 +4,7 @@ import math
 
 import numpy as np
 
-from .. import cases, cmp, corpus, gen, sim, expect
+from .. import cases, cmp, corpus, gen, sim, expect, w4
 from ..harness import CaseResult
 from ..probe import read
 
@@ -32,8 +32,8 @@ REQUIRED_REACH = ["variance", "std_dev_is_sqrt", "std_err", "moe_is_z_times_se",
                   "class:cell=intersection", "class:pair=CATxMR", "class:pair=MRxCAT",
                   "class:pair=MRxMR", "class:pair=ARRxCAT"]
 BATCH = 40
-RULE = RULE + corpus.RULE_SUFFIX
-REQUIRED_REACH = list(REQUIRED_REACH) + ["class:corpus"]
+RULE = RULE + corpus.RULE_SUFFIX + w4.RULE_SUFFIX
+REQUIRED_REACH = list(REQUIRED_REACH) + ["class:corpus", "class:w4"]
 TECHNIQUE = TECHNIQUE + corpus.TECHNIQUE_SUFFIX
 Z = 1.959964
 ROOT_ATOL = 1e-7
@@ -42,12 +42,14 @@ ROOT_ATOL = 1e-7
 def units(tier, seed):
     n = 600 if tier == "quick" else 30000
     # W1 synthetic surveys, then W3: the fixture corpus under the intrinsic relations
-    return [{"i": i, "seed": seed} for i in range(n)] + corpus.units(tier, seed)
+    return [{"i": i, "seed": seed} for i in range(n)] + corpus.units(tier, seed) + w4.units(tier, seed)
 
 
 def make_case(unit):
     if "corpus" in unit:
         return corpus.make_case(ID, unit)
+    if "w4" in unit:
+        return w4.make_case(ID, unit)
     i = unit["i"]
     g = gen.G("C11/%s/%s" % (unit["seed"], i))
     template = TEMPLATES[i % len(TEMPLATES)]
@@ -72,6 +74,8 @@ def make_case(unit):
 def check_case(case):
     if "fixture" in case:
         return corpus.check_case(ID, case)
+    if case.get("w4"):
+        return w4.check_case(ID, case)
     res = CaseResult()
     L = cases.realize(case)
     o = L.oracle
